@@ -52,6 +52,58 @@ fn sidadd(x: u64, n: u64) -> Value {
     }
 }
 
+// ---------------------------------------------------------------- C18: HTTP datagrams
+fn read_all<B: Buf>(mut b: B) -> Vec<u8> {
+    // chunk-wise read through the Buf interface, the way a QUIC stack consumes the datagram
+    let mut out = Vec::new();
+    let mut guard = 0;
+    while b.has_remaining() {
+        let c = b.chunk().to_vec();
+        if c.is_empty() {
+            guard += 1;
+            if guard > 3 { out.extend_from_slice(b"<empty chunk with bytes remaining>"); break; }
+            continue;
+        }
+        out.extend_from_slice(&c);
+        b.advance(c.len());
+    }
+    out
+}
+
+fn dgenc(sid: u64, payload: &[u8]) -> Value {
+    let id = match StreamId::try_from(sid) { Ok(i) => i, Err(_) => return json!({"panic": "bad sid in vector"}) };
+    let d = h3_datagram::datagram::Datagram::new(id, bytes::Bytes::copy_from_slice(payload));
+    json!({"bytes": jbytes(&read_all(d.encode()))})
+}
+
+fn code_name_of_debug(s: &str) -> String {
+    // InternalConnectionError derives Debug: `InternalConnectionError { code: H3_DATAGRAM_ERROR, message: ".." }`
+    s.split("code: ").nth(1).and_then(|r| r.split(|c| c == ',' || c == ' ' || c == '}').next()).unwrap_or("?").to_string()
+}
+
+fn dgdec(input: &[u8]) -> Value {
+    match h3_datagram::datagram::Datagram::decode(bytes::Bytes::copy_from_slice(input)) {
+        Ok(d) => json!({"ok": true, "sid": b8(d.stream_id().into_inner()), "payload": jbytes(&d.payload()[..])}),
+        Err(e) => json!({"ok": false, "code": code_name_of_debug(&format!("{:?}", e))}),
+    }
+}
+
+fn dgcons(sid: u64, payload: &[u8], pattern: &[u64]) -> Value {
+    let id = match StreamId::try_from(sid) { Ok(i) => i, Err(_) => return json!({"panic": "bad sid in vector"}) };
+    let mut e = h3_datagram::datagram::Datagram::new(id, bytes::Bytes::copy_from_slice(payload)).encode();
+    let mut steps = Vec::new();
+    for a in pattern {
+        let rem = e.remaining();
+        let chunk = e.chunk().to_vec();
+        steps.push(json!({"rem": rem, "chunk": jbytes(&chunk), "adv": a}));
+        if (*a as usize) > rem {
+            break; // the spec will reject this record; never call advance beyond remaining
+        }
+        e.advance(*a as usize);
+    }
+    json!({"steps": steps, "final_rem": e.remaining(), "final_chunk": jbytes(e.chunk())})
+}
+
 pub fn exec(v: &Value) -> Value {
     let f = v["fn"].as_str().unwrap_or("");
     guarded(|| match f {
@@ -60,6 +112,9 @@ pub fn exec(v: &Value) -> Value {
         "esize" => json!(VarInt::encoded_size(v["in"].as_u64().unwrap_or(0) as u8)),
         "sid" => sid(u64_of(&v["in"])),
         "sidadd" => sidadd(u64_of(&v["in"]), u64_of(&v["n"])),
+        "dgenc" => dgenc(u64_of(&v["sid"]), &bytes_of(&v["payload"])),
+        "dgdec" => dgdec(&bytes_of(&v["in"])),
+        "dgcons" => dgcons(u64_of(&v["sid"]), &bytes_of(&v["payload"]), &v["pattern"].as_array().map(|a| a.iter().map(|x| x.as_u64().unwrap_or(0)).collect::<Vec<_>>()).unwrap_or_default()),
         _ => json!({"unknown_fn": f}),
     })
 }
@@ -80,6 +135,12 @@ pub fn run_vectors(inp: &str, out: &str) -> Result<(), String> {
         n += 1;
         if got.get("unknown_fn").is_some() {
             return Err(format!("vector {}: unknown fn {}", i + 1, v["fn"]));
+        }
+        if v.get("exp").is_none() {
+            let mut rec = v.clone();
+            rec["out"] = got;
+            writeln!(w, "{}", json!({"rec": rec})).map_err(|e| e.to_string())?;
+            continue;
         }
         if got != v["exp"] {
             bad += 1;
@@ -113,6 +174,28 @@ pub fn run_random(prop: &str, seed: u64, n: usize, out: &str) -> Result<(), Stri
                     }
                     2 => json!({"fn": "sid", "in": b8(x)}),
                     _ => json!({"fn": "sidadd", "in": b8(x & ((1u64 << 62) - 1)), "n": b8(rng.random::<u64>() >> rng.random_range(0..64u32))}),
+                }
+            }
+            "C18" => {
+                let k: u64 = { let bits = rng.random_range(0..=60u32); if bits == 0 { 0 } else { rng.random::<u64>() >> (64 - bits) } };
+                let plen = rng.random_range(0..24usize);
+                let payload: Vec<u8> = (0..plen).map(|_| rng.random()).collect();
+                match rng.random_range(0..3u32) {
+                    0 => json!({"fn": "dgenc", "sid": b8(k * 4), "payload": jbytes(&payload)}),
+                    1 => {
+                        let n = rng.random_range(0..=9usize);
+                        let mut b: Vec<u8> = (0..n).map(|_| rng.random()).collect();
+                        if !b.is_empty() && rng.random_bool(0.3) { b[0] |= 0xc0; }
+                        json!({"fn": "dgdec", "in": jbytes(&b)})
+                    }
+                    _ => {
+                        // random advance pattern over a random datagram
+                        let total = VarInt::from_u64(k).map(|v| v.size()).unwrap_or(8) + plen;
+                        let mut left = total as u64;
+                        let mut pat = Vec::new();
+                        while left > 0 { let a = rng.random_range(1..=left.min(9)); pat.push(a); left -= a; }
+                        json!({"fn": "dgcons", "sid": b8(k * 4), "payload": jbytes(&payload), "pattern": pat})
+                    }
                 }
             }
             _ => return Err(format!("no random driver for {prop}")),
